@@ -398,8 +398,96 @@ def run_shared_raw(is_async: bool, role: int, x: int) -> Tuple[bool, bool]:
     return ok, not (x > 0)
 
 
+_IMPORT_ORDER_SCRIPT = """
+{imports}
+
+out = []
+
+
+@icontract.invariant(lambda self: self.balance >= 0)
+class Account:
+    def __init__(self):
+        self.balance = 10
+
+    async def settle(self):
+        # a task created while this public method (and hence the object's mark) is in progress
+        await asyncio.ensure_future(worker(self))
+
+    async def withdraw(self, amount):
+        self.balance -= amount
+
+
+async def worker(account):
+    try:
+        await account.withdraw(100)
+        out.append("invariant unchecked")
+    except icontract.ViolationError:
+        out.append("invariant checked")
+    account.__dict__["balance"] = 10
+
+
+@icontract.require(lambda amount: amount > 0)
+@icontract.require(lambda amount: spawn(amount))
+async def reserve(amount):
+    return amount
+
+
+async def spawn(amount):
+    if amount == 1:
+        async def child():
+            try:
+                await reserve(-5)
+                out.append("precondition unchecked")
+            except icontract.ViolationError:
+                out.append("precondition checked")
+        await asyncio.ensure_future(child())
+    return True
+
+
+async def main():
+    await Account().settle()
+    await reserve(1)
+
+asyncio.run(main())
+print(";".join(out))
+"""
+
+
+def run_import_order(order: int) -> Tuple[bool, bool]:
+    """A fresh interpreter which imports icontract before / after asyncio: a task created while a mark is set (in the body of a
+    public method of an object with invariants, in a precondition) is another task - its calls are fully checked."""
+    import os
+    import shutil
+    import subprocess
+    import sys
+    import tempfile
+    order = conc(order, 0, 1)
+    with untraced():
+        verif = os.path.dirname(os.path.dirname(os.path.abspath(__file__)))
+        base = os.path.join(verif, ".work")
+        os.makedirs(base, exist_ok=True)
+        d = tempfile.mkdtemp(prefix="gen_", dir=base)
+        try:
+            path = os.path.join(d, "import_order.py")
+            with open(path, "w") as f:
+                f.write(_IMPORT_ORDER_SCRIPT.replace(
+                    "{imports}", ["import icontract\nimport asyncio", "import asyncio\nimport icontract"][order]))
+            env = dict(os.environ, PYTHONPATH=os.environ.get("VERIF_REPO", "/repo"))
+            res = subprocess.run([sys.executable, path], env=env, capture_output=True, text=True, timeout=120)
+            got = res.stdout.strip()
+        finally:
+            shutil.rmtree(d, True)
+    note(("import_order", order, got), True)
+    return got == "invariant checked;precondition checked", True
+
+
 def harnesses(tier: str) -> List[H]:
     out = []  # type: List[H]
+    out.append(H("import_order_tasks", bind(run_import_order, (), ["order"], {}, ["order"]), [I("order", 0, 1)], tiers=(tier,),
+                 timeout=200,
+                 family="fresh interpreter importing icontract before / after asyncio; asyncio tasks created inside a public async "
+                        "method of an object with an invariant and inside a precondition make violating calls (run natively)",
+                 family_size=2))
     SR = ["is_async", "role", "x"]
     out.append(H("shared_raw_function", bind(run_shared_raw, (), SR, {}, SR), [B("is_async"), I("role", 0, 1), I("x", -3, 3)],
                  tiers=(tier,), timeout=200,
